@@ -268,6 +268,17 @@ package slip
 // taken out of the using packages (a user's own definition of the same name, or
 // one it got from a third package, stays), and the flag is cleared on this
 // package's own object.
+// fmakunbound: the function leaves the table of its package and of every using
+// package that sees this very function (a user's own function of that name
+// stays); the shared lambda that compiled callers hold is kept, so that a later
+// defun of the name still reaches them (C08).
+//@ func slip.(*Package).Undefine
+//@   property C13 C08
+//@   no-store lambdas funcs
+//@   on-map-delete funcs own-entry-or-a-users-view-of-it: $key == name && ($owner == obj || ($was == fi && fi.Pkg == obj))
+//@   no-map-delete lambdas
+//@   full-loop rangeindex
+
 // unuse-package: the package's own definitions and its imports stay; an inherited
 // entry is dropped and then taken again only from a package that is still used,
 // only if that package exports it, and never over an entry that is present; the
